@@ -31,6 +31,24 @@ fn config_key(input: LocatedSpan) -> IResult<String> {
 
 /// Tries to parse a config map
 pub fn config_map(input: LocatedSpan) -> IResult<Token> {
+    // A config map may contain config maps: like blocks, they count towards the nesting limit of the recursive parser.
+    // The opening brace of a map that is nested too deeply is then reported as unexpected input by the error rules.
+    const MAX_CONFIG_MAP_DEPTH: usize = 100;
+    let state = input.extra.clone();
+    if state.shared_state().block_depth >= MAX_CONFIG_MAP_DEPTH {
+        return Err(nom::Err::Error(nom::error::Error::new(
+            input,
+            nom::error::ErrorKind::TooLarge,
+        )));
+    }
+    state.shared_state().block_depth += 1;
+    let result = config_map_impl(input);
+    state.shared_state().block_depth -= 1;
+    result
+}
+
+#[doc(hidden)]
+fn config_map_impl(input: LocatedSpan) -> IResult<Token> {
     map_once(
         tuple((mws(char('{')), many0(kvp), mws(char('}')))),
         move |(lparen, inner, rparen)| {
